@@ -12,6 +12,8 @@ NA = {
 PENDING = "contracts and obligations for this property are still under construction in this session; not claimed until they discharge"
 TECH = "contract-based deductive verification: VCs generated over go/ssa of the real code from //@ contracts, discharged by z3 5.1.0 / z3 4.8.12 / cvc5 1.0.3"
 CLAIMS = {
+ "C14": ("Frame proof: (*ContainerEdits).Apply, (*Device).ApplyEdits, (*Spec).ApplyEdits, InjectDevices, Append, fillMissingInfo, the toOCI conversions, ensureOCIHooks and sortMounts are under contract with the clause `preserves` for the cdi packages: every store, map update, in-place append and callee frame inside these functions is an obligation that the written object is fresh (allocated by this call) whenever the component belongs to a type of tags.cncf.io/container-device-interface/specs-go or pkg/cdi. Hence after injection every field of every cached cdi.Spec/Device/ContainerEdits/DeviceNode/Mount/Hook/IntelRdt object, and every list of pointers or structs hanging off them, has its old value, for any cache content, request and OCI spec; host information is filled into a per-call copy (repeatability). The same run proves Apply's run-time preconditions (no null list entries) from the cache invariant through Append.",
+         "Assumed: the runtime-tools/generate functions, sort.Stable and unix.Lstat write no component of a cdi type (assumed `preserves` contracts); refreshIfRequired (trusted) leaves cached cdi objects alone; contents of []string / []uint32 backing arrays and of *uint32/*os.FileMode/*int cells are shared primitive components and are outside the frame claim (no code in /repo writes them; for the generator this is part of the assumption); aliasing between the OCI spec and the cache created by toOCI (shared slices/pointers) is not a change made by injection and is not covered.", "DESIGN.md §4 C14"),
  "C04": ("(*Cache).InjectDevices and (*ContainerEdits).Append are under contract. Postconditions of InjectDevices, for any cache content, any OCI spec and any request list of any length: nil OCI spec ⇒ error and the request list returned; otherwise the returned list is exactly the subsequence of requested names that do not resolve in the index after the refresh — each entry is devices[idx[j]] with idx strictly increasing (order and repetitions kept, ghost witness idx), every miss index occurs, every entry is a miss; if that list is non-empty the result is an error and every heap component of the OCI runtime-spec types is unchanged at every object that existed at entry (no call of Apply on that path: a checked assertion shows Apply is only reached when every requested name resolves; Append writes only the fresh edits object and fresh or own backing arrays). Loop by inductive invariant.",
          "Assumed: refreshIfRequired is a trusted contract (its body, the refresh/watch machinery, is not verified here; that it cannot touch OCI objects is discharged by a type-reachability check over its call graph; that it re-establishes the index well-formedness CacheWF and leaves cached cdi objects alone is assumed), sync.Mutex Lock/Unlock, strings.Join, fmt.Errorf; Apply's contract (frame only) is verified under C14.", "DESIGN.md §4 C04"),
  "C05": ("The in-memory admission pipeline is under contract end to end: newSpec, (*Spec).validate, newDevice, (*Device).validate, (*ContainerEdits).Validate/isEmpty, ValidateEnv, the DeviceNode/Hook/Mount/IntelRdt validators, ValidateSpecAnnotations, ValidateVersion and the version predicates (C06), the vendor/class/device-name validators (C07). Top-level postcondition of newSpec: err = nil iff the pluggable validator accepts and RawSpecOK(raw), where RawSpecOK is transcribed from the statement (released version not below the minimum, kind = valid vendor/class, annotations checked whatever their static type, spec-level edits well-formed, at least one device, every device with a valid name, checked annotations, non-empty well-formed edits, names pairwise distinct, null list entries rejected); every leaf validator has its own iff contract; loops by invariants over any number of devices and entries.",
